@@ -362,6 +362,12 @@ func GetTopLevelMethodT(
 		return methodT
 	}
 
+	// a call without a receiver also reaches the private methods of the ancestors
+	methodT = getParentMethodT(frame, class, method, true, false)
+	if methodT != nil {
+		return methodT
+	}
+
 	if ok {
 		return methodT
 	}
